@@ -114,7 +114,7 @@ PROPS = {
                 "fresh BanFile, reconnect from the address); oracle: created account bitmap (memory via admin get-user, file, fresh "
                 "manager, 354 at its login) is a subset of the creator's over all 64 bits, and requested-subset => created exactly; "
                 "non-trivial = requested not a subset of creator (create) / a protected target hit with a ban option (kick); "
-                "distinct = hash(creator, requested, path) / hash(targets)",
+                "distinct = hash(creator, requested, path) / hash(targets); in a third of the cases the creator's privileges (reduced) and the targets' protection bit (set or cleared) come from an administrator's set-user made while the account is logged in twice, and the request comes from / is aimed at the later session",
         "assumptions": ["creator bitmaps are what an account file can hold (40 defined privileges)"],
         "quick": {"runs": [{"test": "^TestC06Create$", "shards": 8, "checks": 400, "timeout": 600},
                            {"test": "^TestC06ExtraBit$", "shards": 4, "timeout": 600},
